@@ -356,7 +356,7 @@ def rule_r2(rep, repo):
     for role, a, b in (("points", gp, sets["points"]), ("weights", gw, sets["weights"])):
         a2 = e5.subst(a, m)
         d = e5.diff(a2, b)
-        if d is None:
+        if d is None or e5.algebraically_equal(a2, b):
             rep.ok("R2.shell-sibling", f"AtomGrid shell {role}", repo.rel("atomgrid", loop), e5.show(a2, 160))
         else:
             rep.violation("R2.shell-sibling", "atomgrid.AtomGrid.get_shell_grid", role,
